@@ -37,6 +37,9 @@ type c13Case struct {
 	DelaySeeds  []int64     `json:"delay_seeds"`
 	Series      []c13Series `json:"series"`
 	Feats       []string    `json:"features,omitempty"`
+	// Fault, when set, adds the undelivered-slice scenario (c13_fault.go) after
+	// the repetitions above.
+	Fault *c13Fault `json:"fault,omitempty"`
 	// Batch is only set in the witness of a data race report: the cases that
 	// ran in the child process that printed it.
 	Batch []c13Case `json:"batch,omitempty"`
@@ -73,21 +76,22 @@ type c13Viol struct {
 }
 
 type c13Outcome struct {
-	Idx        int       `json:"idx"`
-	Viols      []c13Viol `json:"viols,omitempty"`
-	Inconc     string    `json:"inconclusive,omitempty"`
-	Slices     int       `json:"slices"`
-	Requests   int       `json:"requests"`
-	GridPoints int       `json:"grid_points"`
-	DupPoints  int       `json:"dup_points"`
-	GridBefore bool      `json:"grid_starts_before_start"`
-	SeamChange bool      `json:"seam_change"` // a presence change within one step of a seam
-	SeamGaps   int       `json:"seam_gaps"`   // single missing samples at, before or after a seam
-	SeamMerges int       `json:"seam_merges"` // runs continuing across a seam
-	Ranges     int       `json:"ranges"`
-	Orders     []string  `json:"orders,omitempty"` // completion order of the slices, per repetition
-	CachedReqs int       `json:"cached_repeat_requests"`
-	Reps       int       `json:"reps"`
+	Idx        int          `json:"idx"`
+	Viols      []c13Viol    `json:"viols,omitempty"`
+	Inconc     string       `json:"inconclusive,omitempty"`
+	Slices     int          `json:"slices"`
+	Requests   int          `json:"requests"`
+	GridPoints int          `json:"grid_points"`
+	DupPoints  int          `json:"dup_points"`
+	GridBefore bool         `json:"grid_starts_before_start"`
+	SeamChange bool         `json:"seam_change"` // a presence change within one step of a seam
+	SeamGaps   int          `json:"seam_gaps"`   // single missing samples at, before or after a seam
+	SeamMerges int          `json:"seam_merges"` // runs continuing across a seam
+	Ranges     int          `json:"ranges"`
+	Orders     []string     `json:"orders,omitempty"` // completion order of the slices, per repetition
+	CachedReqs int          `json:"cached_repeat_requests"`
+	Reps       int          `json:"reps"`
+	Fault      *c13FaultObs `json:"fault,omitempty"`
 }
 
 type c13RepResult struct {
@@ -402,6 +406,10 @@ func c13Observed(cs *c13Case, lg *c13RepLog, res *promapi.RangeQueryResult) stri
 	reqs := append([]c13Req(nil), lg.Reqs...)
 	sort.Slice(reqs, func(i, j int) bool { return reqs[i].Done < reqs[j].Done })
 	for _, r := range reqs {
+		if r.Fault != "" {
+			fmt.Fprintf(&b, "request NOT DELIVERED (%s): start=%s end=%s step=%dms points=%d\n", r.Fault, c13FmtMs(r.StartMs), c13FmtMs(r.EndMs), r.StepMs, r.Points)
+			continue
+		}
 		fmt.Fprintf(&b, "request (completion order): start=%s end=%s step=%dms points=%d delay=%dus\n", c13FmtMs(r.StartMs), c13FmtMs(r.EndMs), r.StepMs, r.Points, r.DelayUs)
 	}
 	for _, r := range lg.Rejected {
@@ -528,6 +536,9 @@ func c13RunCase(srv *c13Server, cs *c13Case) (o c13Outcome) {
 		if j.set != firstSet && fresh {
 			addViol(c13Viol{Sig: "cached-repeat-differs", What: "asking the same query a second time on the same client returned different ranges"}, &after, res, "repeated c13_rep_0")
 		}
+	}
+	if cs.Fault != nil {
+		o.Fault = c13RunFault(live, uri, cs, addViol)
 	}
 	return o
 }
